@@ -14,7 +14,7 @@ which re-evaluates `loadRef (render s) = ok s.trees` on every generated stream.
 import SuccinctlyVerif.Proof.YamlRoundTrip
 import SuccinctlyVerif.Proof.YamlFamilies
 namespace SV.Props.C14
-open SV SV.Yaml
+open SV SV.YamlRef
 
 /-- The full statement (not asserted): every admissible stream loads back to its trees. -/
 def render_load_full_statement : Prop :=
